@@ -552,6 +552,11 @@ def _special_cases():
             out.append({"kind": "special", "what": "tiny-unit-large-read", "fmt": fmt, "alloc": alloc})
     for depth in (4, 8):
         out.append({"kind": "special", "what": "vmdk-descriptor-chain-embedded-parents", "depth": depth})
+    for where in ("first", "middle", "last", "only"):
+        for how in ("handles", "descriptor"):
+            out.append({"kind": "special", "what": "vmdk-zero-sector-extent", "where": where, "how": how})
+    for fmt in ("qcow2-unknown-extension", "vmdk", "vhdx", "hyperv", "vmtar"):
+        out.append({"kind": "special", "what": "repeated-open-retains-memory", "fmt": fmt})
     for fill in (4096, 65536):
         for ln in (0xFFFFFFFF, 0xFFFFFFF9, 0xFFFFFFF8):
             out.append({"kind": "special", "what": "qcow2-extension-length-x-far-end-bound", "fill": fill, "len": ln})
@@ -1045,6 +1050,75 @@ def _run_special(case, ctx):
                 return _drive_stream(v, v.read_sectors)
 
         return _execute(ctx, case, None, None, subject, drv, {}, depth * (8 << 20))
+    if what == "vmdk-zero-sector-extent":
+        # an extent that declares no sectors at all (in front of, between, behind the others, or alone): reads end
+        where, how = case["where"], case["how"]
+        full = BM.build_hosted([DATA, HOLE], [0, None], 8, 512, 16, layer=1).tobytes()
+        empty = BM.build_hosted([], [], 8, 512, 0, layer=2).tobytes()
+        seq = {"first": [empty, full, full], "middle": [full, empty, full], "last": [full, full, empty], "only": [empty]}[where]
+
+        def drv(parts):
+            from dissect.hypervisor.disk.vmdk import VMDK
+
+            if how == "handles":
+                v = VMDK([io.BytesIO(p) for p in parts])
+                return _drive_stream(v, v.read_sectors)
+            with scratch_dir() as d:
+                lines = []
+                for j, p in enumerate(parts):
+                    with open(os.path.join(d, f"e-s{j + 1:03d}.vmdk"), "wb") as f:
+                        f.write(p)
+                    lines.append(("RW", 0 if p is empty else 16, "SPARSE", f"e-s{j + 1:03d}.vmdk", None))
+                with open(os.path.join(d, "e.vmdk"), "w") as f:
+                    f.write(BM.descriptor_text("twoGbMaxExtentSparse", lines))
+                v = VMDK(Path(d) / "e.vmdk")
+                return _drive_stream(v, v.read_sectors)
+
+        return _execute(ctx, case, None, seq, subject, drv, {}, sum(len(p) for p in seq))
+    if what == "repeated-open-retains-memory":
+        # one process opens, reads and drops the same image 300 times: what stays allocated afterwards does not grow with the
+        # number of images that have been opened (module / class level containers that only ever grow)
+        import gc
+
+        from mc.builders import qcow2 as BQ
+        from mc.builders import vhdx as BX
+
+        fmt = case["fmt"]
+        if fmt == "qcow2-unknown-extension":
+            raw = BQ.build(["N", "U"], [0, None], 16, 3, extensions=[(0x7FAB1E55, bytes(range(256)) * 150)])[0].tobytes()
+            drv = drv_qcow2
+        elif fmt == "vmdk":
+            raw, drv = _seed("vmdk.embedded_descriptor")["raw"], drv_vmdk
+        elif fmt == "vhdx":
+            raw, drv = _seed("vhdx.dynamic")["raw"], drv_vhdx
+        elif fmt == "hyperv":
+            raw, drv = _seed("hyperv")["raw"], drv_hyperv
+        else:
+            raw, drv = _seed("vmtar")["raw"], drv_vmtar
+        ctx.transitions += 1
+        ctx.states += 1
+        ctx.nontrivial += 1
+        with ctx.watch(case, 300):
+            for _ in range(3):
+                drv(raw)  # warm-up: caches that fill once are not growth
+            gc.collect()
+            tracemalloc.start(1)
+            try:
+                base = tracemalloc.get_traced_memory()[0]
+                for _ in range(300):
+                    drv(raw)
+                gc.collect()
+                kept = tracemalloc.get_traced_memory()[0] - base
+            finally:
+                tracemalloc.stop()
+        allow = 2 * len(raw) + (1 << 20)
+        ctx.maxi("retained_after_300_opens_over_allowance_permille", int(1000 * max(0, kept) / allow))
+        if kept > allow:
+            ctx.violation(case, {"subject": subject, "kind": "memory-grows-with-number-of-opens", "fmt": fmt},
+                          {"retained_bytes": kept, "allowance": allow, "input_bytes": len(raw), "opens": 300})
+            return False
+        ctx.outcome("returned")
+        return True
     if what == "qcow2-extension-length-x-far-end-bound":
         # two header fields together: the backing-file offset (the end bound of the extension area) far beyond the file, and an
         # area filled with extension headers whose length rounds up to 0 modulo 2^32 (0xFFFFFFF9 ..) or to a huge value
